@@ -641,6 +641,41 @@ m('resetdef-reuse','C06',['RESET-DEF'],'constraint/blueprint_logderivlookup.go',
 	b.cachedEntries = make([]E, 0, capacity)
 	b.cachedOffset = 0
 ''',note='Reset reuses the previous allocation and returns before clearing cachedOffset')
+m('loopmust-uints-lastbyte','C14',['LOOP-MUST'],'std/math/uints/uint8.go','''	for i := range bts {
+		r[i] = bf.ByteValueOf(bts[i])
+	}
+	expectedValue := bf.ToValue(r)''','''	for i := range bts {
+		if i == len(bts)-1 {
+			// the top byte is bounded by the recomposition
+			r[i] = U8{Val: bts[i], internal: true}
+			continue
+		}
+		r[i] = bf.ByteValueOf(bts[i])
+	}
+	expectedValue := bf.ToValue(r)''',note='the most significant hinted byte is no longer range checked')
+edit('std/selector/slice.go',[('''	for i := 1; i < len(out); i++ {
+		// (out[i] - out[i-1]) * (i - stepPosition) == 0
+		api.AssertIsEqual(api.Mul(api.Sub(out[i], out[i-1]), api.Sub(i, stepPosition)), 0)
+	}
+	return out
+}
+''','''	assertStepShape(api, out, stepPosition)
+	return out
+}
+
+// assertStepShape adds the constraints for the form of a step function that steps at stepPosition.
+func assertStepShape(api frontend.API, out []frontend.Variable, stepPosition frontend.Variable) {
+	for i := 1; i < len(out); i++ {
+		// (out[i] - out[i-1]) * (i - stepPosition) == 0
+		assertStepAt(api, out, i, stepPosition)
+	}
+}
+
+func assertStepAt(api frontend.API, out []frontend.Variable, i int, stepPosition frontend.Variable) {
+	api.AssertIsEqual(api.Mul(api.Sub(out[i], out[i-1]), api.Sub(i, stepPosition)), 0)
+}
+''')])
+save('benign-loopmust-helper','C14','std/selector/slice.go','the step-shape loop of stepMask moved into a helper, its body into a second helper')
 json.dump({'comment':'selftest mutants: each patch breaks one rule instance and must be detected by the listed rule(s) of its property; produced by tools/make_selftest.py','mutants':M}, open(os.path.join(root,'selftest','mutants.json'),'w'), indent=1)
 subprocess.run(['git','-C','/repo','worktree','remove','--force',WT],capture_output=True)
 print(len(M),'mutants')
